@@ -445,6 +445,9 @@ fn big_case(rep: &mut Report) {
 
 pub fn run(ctx: &Ctx, report: &mut Report) {
     ctx.cases(report, "random", ctx.n(100_000, 5_000_000), random_case);
+    // runtimes with other registrations than the default (Smile only, custom encodings, several claiming one type): the
+    // Content-Type decides through the registry, seen through the blocking and async request deserializers (shared with C11)
+    ctx.cases(report, "registry", ctx.n(30_000, 1_000_000), crate::c11::content_type_case);
     let thorough = ctx.thorough;
     ctx.fixed(report, "enumerated", |rep| enumerate(rep, thorough));
     if ctx.thorough {
